@@ -38,7 +38,7 @@ def gen_defs(rng, mode):
 class CHECK(Check):
     pid = "C10"
     entry = "REGSTREAM"
-    theorems = ["C10_recognised", "C10_stream_text", "C10_binary_width", "C10_stream_binary", "C10_data"]
+    theorems = ["C10_recognised", "C10_delimited_ident_first", "C10_stream_text", "C10_binary_width", "C10_stream_binary", "C10_data"]
     rule = ("register definitions (identifier of 0-3 characters incl. the empty identifier, identifier width >= its length "
             "incl. zero width, 1-4 contiguous fields of mixed kinds) x storage in {positional text, delimited text, binary} x "
             "streams of 1-8 concatenated registers of mixed types with canonical in-domain data (the model decides; others "
